@@ -25,7 +25,7 @@ def main(outdir, ids):
             sh('git checkout -- . && git clean -fdq', cwd=wt)
             # the agents' demos assert that they import the package from their own worktree: point them at this one
             loc = '/tmp/vn/%s_demo%d.py' % (pid, k)
-            open(loc, 'w').write(open(demo).read().replace('/tmp/wtn3/' + pid, wt).replace('/tmp/wtn2/' + pid, wt).replace('/tmp/wtn/' + pid, wt))
+            open(loc, 'w').write(open(demo).read().replace('/tmp/wtn4/' + pid, wt).replace('/tmp/wtn3/' + pid, wt).replace('/tmp/wtn2/' + pid, wt).replace('/tmp/wtn/' + pid, wt))
             demo = loc
             rc, o1 = sh('/venv/bin/python %s' % demo, cwd=wt, env=env, timeout=1800, stdout_only=True)   # the digest is what the demo prints
             r['demo_clean_rc'] = rc
